@@ -270,6 +270,54 @@ fn main() {
             ctx.fail("lock not poisoned after a writer panicked while holding the guard".into());
         }
 
+        // hand-over / cancel stress: main holds the write guard, a coroutine parks in write() or read(),
+        // main drops the guard (hand-over) and cancels the waiter at about the same moment
+        let hc = envn("MAYV_RW_HC", 0);
+        for round in 0..hc {
+            let mut held = acquire(&l, OP_WRITE).unwrap();
+            held.work(0);
+            let started = Arc::new(AtomicBool::new(false));
+            let (l2, st2, s2) = (l.clone(), started.clone(), seen.clone());
+            let rd = ctx.rand();
+            let op = if rd % 3 == 0 { OP_READ } else { OP_WRITE };
+            let h = unsafe {
+                may::coroutine::Builder::new().name(format!("w{round}")).spawn(move || {
+                    let _e = ExitLog;
+                    st2.store(true, Ordering::SeqCst);
+                    if let Some(mut g) = acquire(&l2, op) {
+                        if l2.is_poisoned() {
+                            s2.store(true, Ordering::SeqCst);
+                        }
+                        g.work(1);
+                        drop(g);
+                    }
+                })
+            }
+            .unwrap();
+            while !started.load(Ordering::SeqCst) {
+                ctx.yield_now();
+            }
+            for _ in 0..(rd >> 8) % 24 {
+                ctx.point();
+            }
+            if (rd >> 16) % 2 == 0 {
+                drop(held);
+                for _ in 0..(rd >> 24) % 6 {
+                    ctx.point();
+                }
+                ctx.log("rw.cancel", round as u64, 0, None);
+                unsafe { h.coroutine().cancel() };
+            } else {
+                ctx.log("rw.cancel", round as u64, 0, None);
+                unsafe { h.coroutine().cancel() };
+                for _ in 0..(rd >> 24) % 6 {
+                    ctx.point();
+                }
+                drop(held);
+            }
+            let _ = h.join();
+        }
+
         let mut threads = vec![];
         let mut cos = vec![];
         for i in 0..n {
